@@ -25,11 +25,16 @@ import vlib
 import serverlib as sl
 
 THEOREMS = ["C09_definition", "C09_references", "C09_document_symbol", "C09_folding_range", "C09_inlay_hint",
-            "C09_document_link", "C09_diagnostics", "C09_plumbing_is_source", "C09_old_refuted"]
+            "C09_document_link", "C09_diagnostics", "C09_plumbing_is_source", "C09_pipeline", "C09_position_faithful",
+            "C09_old_refuted"]
+# the gen files in the cone of props/C09.vo: GenServerConv, GenLineIndex (plumbing) and, through Pipeline / C17, the grammar side
+TRANSLATORS = ["t_serverconv", "t_lineindex", "t_tokens", "t_lextables", "t_unicode", "t_grammar", "t_grammarcert", "t_ast",
+               "t_foldkinds"]
 TRUSTED = [
     "Coq 8.16.1 kernel; no axioms (Print Assumptions: closed under the global context)",
     "model/ServerProto.v part 2 as a model of the conversion step of the handlers of server.rs and of to_proto.rs (tied to the code by the correspondence run of this check); model/LineIndex.v as a model of line_index.rs (tied by checks/C10.py); URIs identified with file ids (the Vfs file set is a bijection between ids and paths; Url::from_file_path/to_file_path are inverse on the absolute paths used)",
     "tools/translate/t_serverconv.py (rigid-subset reader of the handlers of server.rs, of the to_proto wrappers and of the from_proto lookups; regenerates gen/GenServerConv.v on every run; C09_plumbing_is_source proves the model's h_* equal to it) and t_lineindex.py of group lines for the primitives",
+    "C09_pipeline composes with the model pipeline of groups bridge / symmap / parser (Pipeline.analyze, AstToCore, Indexer, IndexerOps.abs; C17_pipeline_core) and with C10 of group lines: their ties to the Rust code (checked state equality of the indexer model, coreast, the parser correspondence, the translators of the grammar side) are theirs; only definition, references and the index diagnostics are composed (document symbols / folding / links / parse diagnostics are covered by the C09_* theorems under the C17 hypothesis)",
     "hypotheses of the theorems: files below 4 GiB; the analysis returns offsets on character boundaries of the file the result names (property C17)",
     "the position of a request is converted to an offset by from_proto with the requesting file's index (property C10); hover and completion responses carry no range",
     "the Coq model's workspace is one snapshot (content : file -> text); that the snapshot's text of a never-opened included file is what the server last read from disk, also when the file is rewritten on disk between two notifications of the root, is exercised by the oracle only (disk-rewrite session family), not modelled",
@@ -344,7 +349,8 @@ def model_parse(req, order, line):
 def run(ctx):
     t0 = time.time()
     bindir = vlib.build_harness(True, bins=["lspdrive", "idedump"])
-    fails = vlib.proof_step(ctx, "TG.Props.C09", THEOREMS, ["props/C09.vo"], trusted_base=TRUSTED, translators=["t_serverconv", "t_lineindex"])
+    vlib.build_harness(False, bins=["unidump"])          # t_unicode reads the std tables through it
+    fails = vlib.proof_step(ctx, "TG.Props.C09", THEOREMS, ["props/C09.vo"], trusted_base=TRUSTED, translators=TRANSLATORS)
     exe = vlib.build_model("server")
     t_setup = time.time() - t0
 
